@@ -26,7 +26,7 @@ META = dict(
   max_inconclusive=dict(quick=0, thorough=0),
 )
 
-QUICK = ["one_view_charged", "one_view_pair", "one_view_eam", "one_view_fs", "two_views_pair", "two_views_eam", "two_views_fs",
+QUICK = ["one_view_containers", "one_view_charged", "one_view_pair", "one_view_eam", "one_view_fs", "two_views_pair", "two_views_eam", "two_views_fs",
          "two_tabs_eam", "two_tabs_fs", "two_tabs_pair", "two_tabs_eam_after_plain", "two_tabs_fs_after_plain", "two_tabs_pair_after_plain"]
 
 
